@@ -61,7 +61,7 @@ pub fn add_kind(b: &mut Spreadsheet, idx: usize, k: usize, count: u32) {
         }
         "ext-links" => add_ext_links(b.get_sheet_mut(&idx).unwrap(), count, &|i| if count >= 12 && i == 5 { String::new() } else { format!("https://example.com/{}/p{}?x={}", idx, i, i * 7) }),
         "int-links" => add_int_links(b.get_sheet_mut(&idx).unwrap(), count, &|i| format!("{}!A{}", quoted(&other), i)),
-        "comments" => add_comments(b.get_sheet_mut(&idx).unwrap(), count, &|i| match i % 3 { 0 => "Author A".into(), 1 => "Author B".into(), _ => "".into() }, &|i| format!("note {} line", i)),
+        "comments" => add_comments(b.get_sheet_mut(&idx).unwrap(), count, &|i| ["Author A", "Author B", "Author A", "Author C", "", "Author B", "Author D <d&d>", "Author A", "Author C", "Author E", "", "Author F"][(i % 12) as usize].into(), &|i| format!("note {} line", i)),
         "validations" => add_validations(b.get_sheet_mut(&idx).unwrap(), count, "choose", "\"a,b,c\""),
         "cond-formats" => {
             add_cond_formats(b.get_sheet_mut(&idx).unwrap(), count, "20");
